@@ -166,6 +166,9 @@ class XorEncodedFile(io.RawIOBase):
         return self.fh.seek(offset, whence)
 
     def read(self, n=-1):
+        if n == 0:
+            return b""
+        start = self.fh.tell()
         data = b""
         nonce = self.read_nonce()
         while True:
@@ -179,7 +182,10 @@ class XorEncodedFile(io.RawIOBase):
                 break
         if n == -1:
             n = None
-        return data[:n]
+        data = data[:n]
+        # the underlying file is consumed in 4-byte chunks, reposition it right after the bytes we return
+        self.fh.seek(start + len(data))
+        return data
 
 
 @catch_sigpipe
